@@ -187,6 +187,42 @@ def c16_neurite_on_first_soma_point():
         return {"kind": "a neurite on the first point of a multi-point soma gets the soma radius blended in", "radii": rad, "expected": [0.5, 0.5]}
 
 
+def c16_max_branch_len_on_sparse_and_dense_tracings():
+    """F25 / F63: read_swc(max_branch_len=m) neither raises nor changes the total cable length, on a COARSE tracing (a section
+    longer than m with fewer than 2 points per requested piece: used to raise in _build_parents), on a stem of a single-point
+    soma (first piece used to be [soma, first point]: +1 um) and on a multi-point soma (first piece used to be one point: +2r)"""
+    jax, jnp, np, jx = _mods()
+    import os
+    files = {
+        "coarse: two 100 um segments, m=30": ([(1, 1, 0.0, 0.0, 0.0, 5.0, -1), (2, 1, 10.0, 0.0, 0.0, 5.0, 1), (3, 3, 110.0, 0.0, 0.0, 1.0, 2), (4, 3, 210.0, 0.0, 0.0, 1.0, 3)], 30.0),
+        "coarse: single-point soma, three 40 um segments, m=15": ([(1, 1, 0.0, 0.0, 0.0, 5.0, -1), (2, 3, 5.0, 0.0, 0.0, 1.0, 1), (3, 3, 45.0, 0.0, 0.0, 1.0, 2), (4, 3, 85.0, 0.0, 0.0, 1.0, 3), (5, 3, 125.0, 0.0, 0.0, 1.0, 4)], 15.0),
+        "stem of a single-point soma, 5 points 10 um apart, m=25": ([(1, 1, 0.0, 0.0, 0.0, 5.0, -1)] + [(i + 2, 3, 10.0 * (i + 1), 0.0, 0.0, 1.0, i + 1) for i in range(5)], 25.0),
+        "3-point soma, m=10": ([(1, 1, 0.0, 0.0, 0.0, 3.0, -1), (2, 1, 6.0, 0.0, 0.0, 3.0, 1), (3, 1, 12.0, 0.0, 0.0, 3.0, 2), (4, 3, 22.0, 0.0, 0.0, 1.0, 3), (5, 3, 32.0, 0.0, 0.0, 1.0, 4)], 10.0),
+    }
+    work = os.path.join(os.path.dirname(os.path.dirname(os.path.abspath(__file__))), ".work")
+    os.makedirs(work, exist_ok=True)
+    path = os.path.join(work, f"regress_{os.getpid()}.swc")
+    bad = []
+    for name, (rows, m) in files.items():
+        with open(path, "w") as f:
+            for r in rows:
+                f.write(" ".join(str(x) for x in r) + "\n")
+        try:
+            with warnings.catch_warnings():
+                warnings.simplefilter("ignore")
+                t0 = float(jx.read_swc(path, ncomp=1).nodes["length"].sum())
+                c1 = jx.read_swc(path, ncomp=1, max_branch_len=m)
+                t1 = float(c1.nodes["length"].sum())
+            if abs(t0 - t1) > 1e-9:
+                bad.append({"file": name, "total_without": t0, "total_with": t1, "branch_lengths_with": [float(x) for x in c1.nodes["length"]]})
+        except Exception as ex:
+            bad.append({"file": name, "raised": repr(ex)[:200]})
+        finally:
+            os.remove(path)
+    if bad:
+        return {"kind": "read_swc with max_branch_len raises or changes the total cable length", "cases": bad}
+
+
 # ------------------------------------------------------------------------------------------ C09
 def c09_synapse_that_reads_v_pre():
     """F46: pre cell held at -70 mV exactly, TanhRateSynapse: the synaptic current is constant, so the post
@@ -704,7 +740,7 @@ CASES = {
     "C13": [c14_init_states_after_set_ncomp_on_assembled_cell, c13_set_ncomp_through_old_or_reordered_views, c13_single_branch_cell,
             c13_uniform_properties_kept_exactly, c13_compartment_centres, c13_set_ncomp_through_a_kept_view],
     "C14": [c14_init_states_after_set_ncomp_on_assembled_cell],
-    "C16": [c16_neurite_on_first_soma_point],
+    "C16": [c16_neurite_on_first_soma_point, c16_max_branch_len_on_sparse_and_dense_tracings],
     "C17": [c17_affine_guard],
     "C19": [c19_delete_channel_with_references, c19_delete_through_the_view_that_added, c19_record_i_and_compartment_set_ncomp, c14_init_states_after_set_ncomp_on_assembled_cell, c13_set_ncomp_through_old_or_reordered_views],
 }
